@@ -110,7 +110,8 @@ def _common(c, prob_is_zero, prob_term=None):
         bs = f['count_base_structures'].term
         st_ = c.after['$structure'].term
         p = T.fmul(p, z3.If(CTAB.has(bs, st_), CTAB.get(bs, st_), T.F_ZERO))
-        out.append(('score_is_the_product_of_every_segment_and_the_structure', prob_term == p))
+        # (a letter that the guesser cannot rebuild from its lower-case form and the mask forces the score to 0: never a wrong non-zero value)
+        out.append(('a_non_zero_score_is_the_product_of_every_segment_and_the_structure', z3.Implies(T.fval(prob_term) != 0, prob_term == p)))
         out += [('email_or_website_never_scored', z3.And(z3.Not(has_e), z3.Not(has_w), sup)),
                 ('p_needs_score_or_omen_level', z3.Implies(cat == lit('p'), z3.Or(T.fval(prob_term) > z3.ToReal(c.self.fields['limit'].term), om_ok)))]
     return out
@@ -139,6 +140,18 @@ def _prod_inv(field, ghost, counter):
     return inv
 
 
+def _kept_or_zero(v, pre):
+    if isinstance(v, ZV) and v.shape == TF and isinstance(pre, ZV) and pre.shape == TF:
+        return z3.Or(v.term == pre.term, T.fval(v.term) == 0)
+    if isinstance(v, ZV) and v.shape == TInt:
+        return v.term == 0
+    return z3.BoolVal(False)
+
+
+def _rebuild_inv(L):
+    return [('score_kept_or_zero', _kept_or_zero(L.cur_prob, L.pre['cur_prob']))]
+
+
 _sp = Contract(
     PS + '.parse',
     params={'self': SCORER_OBJ, 'password': TStr, '$pw': TStr, '$offs': td.OFFS, '$emails': LSTR, '$urls': LSTR,
@@ -160,3 +173,8 @@ _sp = Contract(
     raises=(),
     note='C13.classify: e-mail / website inputs are classified as such and score 0; unsupported structures score 0; parse updates nothing',
 )
+
+
+# the two loops of the reproducibility check (added with the repair of F15): the score is left alone or forced to 0
+_sp.loops[7] = LoopSpec(fingerprint='for section in section_list', inv=_rebuild_inv)
+_sp.loops[8] = LoopSpec(fingerprint='for letter in section[0]', inv=_rebuild_inv)
